@@ -132,6 +132,7 @@ def _build_real_devices(xknx):
         "SelectDevice": dict(value_type="hvac_mode"),
     }
     out, used = [], {}
+    by_param = fresh.by_param = {}
     names = [n for n in dv.__all__ if inspect.isclass(getattr(dv, n)) and issubclass(getattr(dv, n), dv.Device) and getattr(dv, n) is not dv.Device]
     for n in sorted(names):
         cls = getattr(dv, n)
@@ -147,12 +148,13 @@ def _build_real_devices(xknx):
             continue  # a type that needs further mandatory configuration is not built
         out.append(d)
         used[d.name] = [v for k, v in kw.items() if k.startswith("group_address")]
+        by_param[d.name] = {k: v for k, v in kw.items() if k.startswith("group_address")}
         if n == "Climate":
             used[d.name] += [str(ga) for ga in kw["mode"].group_addresses()]
     return out, used, fresh
 
 
-@standin("C37", cases=_real_device_cases, kind="enum-native", exhaustive=False, bound="one device of every exported device type (a Climate with own addresses and a ClimateMode) built with a distinct group address for every address argument: group_addresses() - the registry's index key - holds exactly the addresses has_group_address() answers for (over all constructor addresses and two foreign ones), the attached mode's among them; registered in one registry, a telegram to each address reaches exactly the devices that use it, in registration order, and none after removal")
+@standin("C37", cases=_real_device_cases, kind="enum-native", exhaustive=False, bound="one device of every exported device type (a Climate with own addresses and a ClimateMode) built with a distinct group address for every address argument: group_addresses() - the registry's index key - holds every address the constructor was given (but the state address of a date/time device in localtime mode) and exactly the addresses has_group_address() answers for (over all constructor addresses and two foreign ones), the attached mode's among them; registered in one registry, a telegram to each address reaches exactly the devices that use it, in registration order, and none after removal")
 def every_device_type_is_indexed_under_all_the_addresses_it_uses(_):
     import asyncio
 
@@ -171,8 +173,13 @@ def every_device_type_is_indexed_under_all_the_addresses_it_uses(_):
             index_key = d.group_addresses()
             for ga in universe:
                 assert (ga in index_key) == d.has_group_address(ga), (d.name, str(ga), "group_addresses() and has_group_address() disagree")
-            # (not every constructor address is used: a date/time device in localtime mode ignores its state
-            #  address by design - what counts is that index key and has_group_address() agree)
+            # every address the device was configured with is one it uses - the expectation comes from the
+            # constructor arguments, not from the device's own answer. One documented exception: a date/time
+            # device in localtime mode ignores its state address by design (it logs a warning saying so).
+            for param, a in fresh.by_param[d.name].items():
+                if type(d).__name__ in ("DateDevice", "TimeDevice", "DateTimeDevice") and param == "group_address_state":
+                    continue
+                assert GroupAddress(a) in index_key, (d.name, param, a, "configured address is not in group_addresses(): telegrams to it would not reach the device")
             assert not used[d.name] or index_key, (d.name, "no address at all")
             mode = getattr(d, "mode", None)
             if isinstance(mode, Device):
